@@ -8,6 +8,7 @@ pub fn dump(repo: &std::path::Path, args: &[String]) {
     println!("canon problems: {:?}", crate::model::init_dynamic_canon(&ix));
     let (roles, reach) = discover(&ix).expect("roles");
     println!("reachable fns={} roles={}", reach.len(), roles.len());
+    if std::env::var("LISTFNS").is_ok() { for (q, defs) in &ix.fns { for d in defs { println!("FN {} {}:{} reachable={}", q, d.file, d.line, reach.contains(q)); } } return; }
     let filter = args.first().cloned();
     let show = args.get(1).and_then(|s| s.parse::<usize>().ok()).unwrap_or(0);
     let mode = match (std::env::var("MODE").ok().and_then(|m| m.parse::<usize>().ok()), std::env::var("INNER").ok().and_then(|m| m.parse::<usize>().ok())) { (Some(n), _) => CollMode::Unrolled(n), (None, Some(n)) => CollMode::InnerUnrolled(n), _ => CollMode::Summary };
